@@ -583,14 +583,27 @@ func (a *An) c15RestoreOnReject(rule string) {
 		handlers []string
 	}{
 		{"(*Conversation).receiveDecoded", []string{"(*Conversation).receiveDataMessage", "(*Conversation).receiveAKEMessage"}},
+		// a fragment: the tag is adopted while its prefix is parsed; every way of refusing the fragment afterwards puts it back
+		{"(*Conversation).receiveFragment", []string{"(*Conversation).parseFragmentPrefix"}},
 	} {
 		f := a.MustFn(spec.fn)
 		if f == nil || fld == nil {
 			continue
 		}
 		si := statusIndex(f.Signature)
-		paths, complete := a.C.Paths(f, nil, 512)
+		// the same test of the same value decides the same way each time it is met on a path
+		consistent := func(p *Path, cond ssa.Value) Tri {
+			t := a.C.Term(p.Resolve(cond))
+			for _, d := range p.Decisions {
+				if a.C.Term(p.Resolve(d.If.Cond)) == t {
+					return triOf(d.Truth)
+				}
+			}
+			return Unknown
+		}
+		paths, complete := a.C.Paths(f, consistent, 512)
 		n, good, bad := 0, complete, ""
+		nData, dataGood, dataBad := 0, complete, ""
 		for _, p := range paths {
 			if p.Ret == nil || si < 0 {
 				continue
@@ -609,10 +622,6 @@ func (a *An) c15RestoreOnReject(rule string) {
 				continue
 			}
 			n++
-			sv := p.Resolve(resolveLocal(p.Ret.Results[si]))
-			if isNilConst(sv) {
-				continue
-			}
 			restored, testedNil := false, false
 			for _, in := range p.Instrs {
 				if st, ok := in.(*ssa.Store); ok {
@@ -622,6 +631,21 @@ func (a *An) c15RestoreOnReject(rule string) {
 						}
 					}
 				}
+			}
+			// a data message never binds: its rejection can be silent (the error of a message flagged IGNORE_UNREADABLE
+			// is dropped on the way up), so the tag is put back on every path through the data-message handler
+			for _, in := range p.Instrs {
+				if call, ok := in.(ssa.CallInstruction); ok && a.F.callName(call) == "(*Conversation).receiveDataMessage" {
+					nData++
+					if !restored {
+						dataGood = false
+						dataBad = a.C.InstrPos(p.Ret)
+					}
+				}
+			}
+			sv := p.Resolve(resolveLocal(p.Ret.Results[si]))
+			if isNilConst(sv) {
+				continue
 			}
 			for _, d := range p.Decisions {
 				bo, ok := d.If.Cond.(*ssa.BinOp)
@@ -647,5 +671,10 @@ func (a *An) c15RestoreOnReject(rule string) {
 		}
 		R.Check(good && n >= 2, rule, spec.fn+"|restore-on-reject", "when a handler rejects the message the peer tag is put back to what it was before the message", a.C.Pos(f.Pos()),
 			fmt.Sprintf("a path through a handler returns a possibly non-nil error at %s without restoring the tag (%d paths, complete=%v): a rejected message binds the conversation to its sender", bad, n, complete))
+		if spec.fn != "(*Conversation).receiveDecoded" {
+			continue
+		}
+		R.Check(dataGood && nData >= 1, rule, spec.fn+"|data-never-binds", "after a data message the peer tag is what it was before it, whatever the handler reported", a.C.Pos(f.Pos()),
+			fmt.Sprintf("a path through the data-message handler returns at %s with the adopted tag kept (%d paths, complete=%v): a data message that is refused silently (IGNORE_UNREADABLE) binds the conversation to whoever sent it", dataBad, nData, complete))
 	}
 }
